@@ -1,4 +1,5 @@
 import Logrange.Proofs.ScanCrash
+import Logrange.Proofs.ScanLag
 import Logrange.Props.C17
 /-!
 # C17 — the crash clause at every point of the two-step save of `scanner.json`
@@ -120,5 +121,74 @@ example :
       .saveBegin false, .w .setOffset, .saveRename]).s =
     run ⟨1, true, true⟩ (init 0) [.step, .next (.record [97, 10]), .step, .send, .confirm, .persist, .setOffset] := by
   decide
+
+/-! ## the size of the lag of a save that falls into the confirm-to-`setOffset` window -/
+
+/-- **`window_lag_is_one_event`** the SIZE of the lag (worker LTS with the one-step save; every configuration with
+`recsPerEvent ≥ 1`, every interleaving, any length): what the last persist stored is the start offset plus the bytes
+of the first `j` confirmed records, the confirmed end at the moment of that persist the start plus the bytes of the
+first `j + m` of them; `m = 0` unless the persist ran between a confirm rendez-vous and its `setOffset`, and then
+`1 ≤ m ≤ recsPerEvent`: the stored offset lags behind by exactly the one event that was just confirmed — its `m`
+consecutive confirmed records `confirmed[j .. j+m)`. -/
+theorem window_lag_is_one_event (c : Cfg) (hk : 1 ≤ c.recsPerEvent) (start : Nat) (tr : List L) :
+    let s := run c (init start) tr
+    ∃ j m, j + m ≤ s.confirmed.length ∧ m ≤ c.recsPerEvent ∧
+      s.persisted = start + bytesOf (s.confirmed.take j) ∧
+      s.confAtPersist = start + bytesOf (s.confirmed.take (j + m)) ∧
+      (s.persistInWindow = false → m = 0) ∧ (s.persistInWindow = true → 1 ≤ m) :=
+  Logrange.ScanWorker.window_lag_is_one_event c hk start tr
+
+/-- the window case occurs (`j = 0`, `m = 1`): the persist runs between the confirm rendez-vous and `setOffset`; it
+stores 0 = the end of 0 confirmed records while the confirmed end is 2 = the end of 1 confirmed record -/
+example :
+    let s := run ⟨1, true, true⟩ (init 0) [.step, .next (.record [97, 10]), .step, .send, .confirm, .persist]
+    s.persisted = 0 ∧ s.confAtPersist = 2 ∧ s.persistInWindow = true ∧ s.confirmed = [[97, 10]] ∧
+    s.persisted = 0 + bytesOf (s.confirmed.take 0) ∧ s.confAtPersist = 0 + bytesOf (s.confirmed.take (0 + 1)) := by
+  decide
+
+/-- the upper bound is met (`recsPerEvent = 2`, `j = 0`, `m = 2`): an event of two records is confirmed, the persist
+in the window stores 0 while the confirmed end is 4 = the end of 2 confirmed records; and after `setOffset` the next
+persist is outside the window and stores the confirmed end (`j = 2`, `m = 0`) -/
+example :
+    let tr : List L := [.step, .next (.record [97, 10]), .step, .step, .step, .next (.record [98, 10]), .step, .send,
+      .confirm, .persist]
+    let s := run ⟨2, true, true⟩ (init 0) tr
+    let t := run ⟨2, true, true⟩ (init 0) (tr ++ [.setOffset, .persist])
+    (s.persisted = 0 ∧ s.confAtPersist = 4 ∧ s.persistInWindow = true ∧ s.confirmed = [[97, 10], [98, 10]] ∧
+     s.confAtPersist = 0 + bytesOf (s.confirmed.take (0 + 2))) ∧
+    (t.persisted = 4 ∧ t.confAtPersist = 4 ∧ t.persistInWindow = false ∧
+     t.persisted = 0 + bytesOf (t.confirmed.take 2)) := by
+  decide
+
+/-- **`crash_window_lag_is_one_event`** the same at every point of the two-step save: what `scanner.json` holds is
+the start offset plus the bytes of the first `j` confirmed records, the confirmed end at the moment that content was
+marshalled the start plus the bytes of the first `j + m` of them; `m = 0` unless the marshal fell between a confirm
+rendez-vous and its `setOffset`, and then `1 ≤ m ≤ recsPerEvent`: a crash then re-sends, of what was confirmed
+before the marshal, exactly one event — at least 1 and at most `recsPerEvent` consecutive confirmed records (plus
+whatever was confirmed since, see `crash_any_point_resends_bounded`). -/
+theorem crash_window_lag_is_one_event (c : Cfg) (hk : 1 ≤ c.recsPerEvent) (start : Nat) (tr : List CL) :
+    let x := crun c (cinit start) tr
+    ∃ j m, j + m ≤ x.s.confirmed.length ∧ m ≤ c.recsPerEvent ∧
+      x.disk = start + bytesOf (x.s.confirmed.take j) ∧
+      x.diskConf = start + bytesOf (x.s.confirmed.take (j + m)) ∧
+      (x.diskWin = false → m = 0) ∧ (x.diskWin = true → 1 ≤ m) :=
+  Logrange.ScanCrash.crash_window_lag_is_one_event c hk start tr
+
+/-- the window case occurs for the state file (`j = 0`, `m = 1`): the marshal falls between the confirm rendez-vous and
+`setOffset`, the rename comes after it; `scanner.json` holds 0 = the end of 0 confirmed records, the confirmed end at
+the marshal was 2 = the end of 1 confirmed record; while a LATER save is between its two steps the file still holds
+that content although the inner `persisted` has moved on to 2 -/
+example :
+    let tr : List CL := [.w .step, .w (.next (.record [97, 10])), .w .step, .w .send, .w .confirm,
+      .saveBegin false, .w .setOffset, .saveRename]
+    let x := crun ⟨1, true, true⟩ (cinit 0) tr
+    let y := crun ⟨1, true, true⟩ (cinit 0) (tr ++ [.saveBegin false])
+    (x.disk = 0 ∧ x.diskConf = 2 ∧ x.diskWin = true ∧ x.s.confirmed = [[97, 10]] ∧
+     x.disk = 0 + bytesOf (x.s.confirmed.take 0) ∧ x.diskConf = 0 + bytesOf (x.s.confirmed.take (0 + 1))) ∧
+    (y.saving = true ∧ y.disk = 0 ∧ y.diskConf = 2 ∧ y.diskWin = true ∧ y.s.persisted = 2 ∧
+     y.s.persistInWindow = false) := by
+  decide
+
+end Logrange.Props.C17Crash
 
 end Logrange.Props.C17Crash
